@@ -337,7 +337,12 @@ def stage(rep, rng, h, env, sc, n, tzs):
         reqs.append(('strp', A(f), A(tok).replace(b'\x00', b'')))
     d = vlib.Differential(rep, [h], env=env, spec_ops={'strp', 'timeparse', 'tparsec'}, name='h_expr')
     impl, model, spec = d.run(reqs, shrink=False)
-    stat = {'strptime_requests': len(reqs), 'strptime_accepted': sum(1 for r, i in zip(reqs, impl) if r[0] == 'strp' and i.startswith('OK')),
+    # mdsort runs with the LC_CTYPE of its environment (isspace / tolower inside strptime follow it): a third of the requests once more with the
+    # harness under the UTF-8 locale of this image, against the same model (no specification side: the driver's FFI stays in the C locale)
+    d8 = vlib.Differential(rep, [h], env=dict(env, LC_ALL='C.utf8'), spec_ops=set(), name='h_expr under LC_ALL=C.utf8')
+    d8.run([r for k, r in enumerate(reqs) if k % 3 == 0], shrink=False)
+    d8.conclude('strptime / timeparse / time_parse under LC_ALL=C.utf8 <-> Model/Strptime.lean')
+    stat = {'strptime_requests': len(reqs), 'strptime_requests_utf8_locale': d8.evals, 'strptime_accepted': sum(1 for r, i in zip(reqs, impl) if r[0] == 'strp' and i.startswith('OK')),
             'timeparse_accepted': sum(1 for r, i in zip(reqs, impl) if r[0] == 'timeparse' and i.startswith('OK')),
             'tparsec_accepted': sum(1 for r, i in zip(reqs, impl) if r[0] == 'tparsec' and i.startswith('OK')),
             'layouts': fmts, 'layouts_outside_the_interpreter': [f for f in fmts if not known_format(f)]}
